@@ -5,7 +5,22 @@ from group_common import GroupSpec
 PROP_FILES = ["C17"]
 
 
+class HammerSpec(GroupSpec):
+    """Only hammer cases, many of them (used by the search after a broken obligation)."""
+    checkers = {}
+    single_round = True
+
+    def gen(self, rng, tier, scale):
+        return [{"component": "group", "ops": [["hammer", 4000, rng.choice([2, 3]), rng.randrange(1 << 30)]], "cfg": {}} for _ in range(32)]
+
+    def coq_case(self, case, obs):
+        return ""
+
+
+
 SPECS = {"group": (GroupSpec(), "harness_group", "runner-group")}
+
+SPECS["hammer-deep"] = (HammerSpec(), "harness_group", "runner-group")
 
 
 def run(ctx):
@@ -27,6 +42,9 @@ def run(ctx):
     def deep():
         # only when an obligation (e.g. the source census) no longer checks: patience mode, bigger storms
         vlib.patience_part(ctx, GroupSpec(), exe, proofs_ok, tag="group", ncases=16, ms=6500)
+        # brute force on the nanosecond windows of spawn / Stop: 16 processes x 4000 trials
+        hs = HammerSpec()
+        vlib._seq_differential_once(ctx, hs, exe, proofs_ok, "hammer-deep", 1.0, False, procs=vlib.NPROC)["_distinct"] = None
     vlib.handle_broken_proof(ctx, deep if ctx.tier == "quick" else None)
     ctx.finish(assumptions=[
         "timer semantics of Go < 1.23 (go.mod says go 1.18): capacity-1 channel, Stop reports whether the timer was pending, a fired value stays in the channel",
